@@ -24,7 +24,9 @@ kinds of thread and the three rendezvous between them as a small-step system; `E
 abstracted to what `Threads.lean` proves about it (it returns once `retAfter` members have returned -
 all of them for All/Most/Any/Fast, one for Race - cancels its context when more than `allowed` members
 have failed, and cancels it when it returns).  A Pull member never succeeds (its stream only ever ends
-with an error), so Fast waits for all.  Strategy One (members run one after the other) is not covered.
+with an error), so Fast waits for all.  Strategy One calls its members one after the other: `Cfg.initSeq` and
+the step `mStart i` (the member's turn comes when the one before it has failed; `ExecuteOne` never cancels:
+`allowed = retAfter = n`; a member whose turn comes after the cancellation is refused by the in-process client).
 
 `watch = true` is the code: `SendMsg` selects on `ctx.Done()` and the hand-over.  `watch = false` is the
 variant with an up-front `ctx.Err()` check and a bare send (seeded change 15), kept for the witness
@@ -39,10 +41,11 @@ inductive HSt (V : Type) where
   | idle | sending (v : V) | ended
 deriving DecidableEq, Repr
 
-/-- the member closure of `pullXActions`: in `stream.Recv()`, in the select that hands `v` to the loop,
-returned -/
+/-- the member closure of `pullXActions`: not called yet (strategy One runs its members one after the other;
+the handler of such a lane does not exist: `HSt.ended`), in `stream.Recv()`, in the select that hands `v` to
+the loop, returned -/
 inductive MSt (V : Type) where
-  | recv | holding (v : V) | ended
+  | notStarted | recv | holding (v : V) | ended
 deriving DecidableEq, Repr
 
 /-- the loop of `PullX`: in its select, inside `server.Send`, in `<-returnErr` after a failed Send,
@@ -55,6 +58,8 @@ def HSt.isEnded : HSt V → Bool
   | .ended => true | _ => false
 def MSt.isEnded : MSt V → Bool
   | .ended => true | _ => false
+def MSt.isNotStarted : MSt V → Bool
+  | .notStarted => true | _ => false
 
 structure Lane (V : Type) where
   pend : List (Option V)   -- what the device will do next: report `some v`, or fail (`none`: its handler returns an error)
@@ -79,6 +84,7 @@ structure Params (V : Type) where
   red : List (Option V) → Option V
 
 inductive Lbl (V : Type) where
+  | mStart (i : Nat)    -- strategy One: member i's turn has come (the one before it has failed): it opens its stream
   | hStart (i : Nat)    -- handler i takes its next instruction: enters SendMsg / returns an error
   | hCtx (i : Nat)      -- handler i finds its context done
   | hand (i : Nat)      -- rendezvous on serverSend: SendMsg of handler i returns nil, Recv of member i returns v
@@ -97,8 +103,14 @@ def Lbl.internal : Lbl V → Bool
   | .poke .. | .sendOk | .sendFail | .cancel => false
   | _ => true
 
+/-- the strategies that run their members side by side: at the first point of quiescence every member closure
+is in `Recv` and every handler waits -/
 def Cfg.init (n : Nat) : Cfg V :=
   ⟨false, List.replicate n ⟨[], .idle, .recv, 0⟩, false, .selecting, pullInit n, []⟩
+
+/-- strategy One: no member has been called yet -/
+def Cfg.initSeq (n : Nat) : Cfg V :=
+  ⟨false, List.replicate n ⟨[], .ended, .notStarted, 0⟩, false, .selecting, pullInit n, []⟩
 
 /-- one step on lane `i` -/
 def Cfg.onLane (c : Cfg V) (i : Nat) (f : Lane V → Option (Lane V)) : Option (Cfg V) :=
@@ -131,7 +143,24 @@ def handLane (l : Lane V) : Option (Lane V) :=
 def mCtxLane (l : Lane V) : Option (Lane V) :=
   match l.m with
   | .ended => none
+  | .notStarted => none
   | _ => some { l with m := .ended }
+
+/-- `ExecuteOne` calls member `i`: `s.impl.PullX(ctx, …)` - the in-process client refuses a context that has
+ended (`NewStream`: `if err := ctx.Err(); err != nil { return nil, … }`, no handler is started), otherwise it
+starts the handler goroutine and the member closure goes into `Recv` -/
+def mStartLane (cancelled : Bool) (l : Lane V) : Option (Lane V) :=
+  match l.m with
+  | .notStarted => some (if cancelled then { l with h := .ended, m := .ended } else { l with h := .idle, m := .recv })
+  | _ => none
+
+/-- `ExecuteOne`'s loop has reached member `i`: the members before it have returned (all with an error: a Pull
+member never succeeds) -/
+def Cfg.prevEnded (c : Cfg V) : Nat → Bool
+  | 0 => true
+  | j + 1 => match c.lanes[j]? with
+    | some p => p.m.isEnded
+    | none => false
 
 def mEofLane (l : Lane V) : Option (Lane V) :=
   match l.h, l.m with
@@ -139,6 +168,7 @@ def mEofLane (l : Lane V) : Option (Lane V) :=
   | _, _ => none
 
 def step [DecidableEq V] (P : Params V) (c : Cfg V) : Lbl V → Option (Cfg V)
+  | .mStart i => if c.prevEnded i then c.onLane i (mStartLane c.cancelled) else none
   | .hStart i => c.onLane i (hStartLane P.watch c.cancelled)
   | .hCtx i => if c.cancelled then c.onLane i (hCtxLane P.watch) else none
   | .hand i => c.onLane i handLane
@@ -178,7 +208,7 @@ def run [DecidableEq V] (P : Params V) : Cfg V → List (Lbl V) → Option (Cfg 
 def hW : HSt V → Nat
   | .idle => 1 | .sending _ => 4 | .ended => 0
 def mW : MSt V → Nat
-  | .recv => 1 | .holding _ => 3 | .ended => 0
+  | .notStarted => 3 | .recv => 1 | .holding _ => 3 | .ended => 0
 def lW : LSt → Nat
   | .selecting => 2 | .inSend => 3 | .draining => 1 | .returned => 0
 def laneW (l : Lane V) : Nat := 4 * l.pend.length + hW l.h + mW l.m
@@ -196,7 +226,7 @@ def Cfg.left (c : Cfg V) : Nat :=
 /-! ## for the driver: every point of quiescence the internal steps can reach -/
 
 def internalLabels (n : Nat) : List (Lbl V) :=
-  (List.range n).flatMap (fun i => [.hStart i, .hCtx i, .hand i, .mCtx i, .mEof i, .give i])
+  (List.range n).flatMap (fun i => [.mStart i, .hStart i, .hCtx i, .hand i, .mCtx i, .mEof i, .give i])
     ++ [.execCancel, .execRet, .loopErr]
 
 def succs [DecidableEq V] (P : Params V) (c : Cfg V) : List (Cfg V) :=
@@ -206,12 +236,12 @@ def succs [DecidableEq V] (P : Params V) (c : Cfg V) : List (Cfg V) :=
 the ghost `log` is dropped, and in a *calm* state - not cancelled, `Execute` running, no handler and no member
 ended, no failure instruction waiting anywhere - the steps `hStart i` / `hand i` are taken at once when enabled:
 in a calm state no thread of the pipeline can cancel the context or end (that needs a cancelled context, an
-ended handler or a failure instruction), so nothing can disable them or change what they do, and they commute
+ended handler of a started lane or a failure instruction), so nothing can disable them or change what they do, and they commute
 with every other enabled step (they touch lane `i`'s handler and its member in `Recv` only). -/
 
 def Cfg.calm (c : Cfg V) : Bool :=
   !c.cancelled && !c.execDone
-    && c.lanes.all fun l => !l.h.isEnded && !l.m.isEnded && l.pend.all Option.isSome
+    && c.lanes.all fun l => (!l.h.isEnded || l.m.isNotStarted) && !l.m.isEnded && l.pend.all Option.isSome
 
 def eagerLabels (n : Nat) : List (Lbl V) :=
   (List.range n).flatMap fun i => [.hStart i, .hand i]
